@@ -2,6 +2,7 @@ import BddProofs.Constrain
 import BddProofs.Total1
 import BddProofs.ConstrainCor
 import BddProofs.Init
+import BddProofs.ClosestWalk
 /-! # C10 — constrain is the generalized cofactor
 
 `Closest g x y`: `y` satisfies `g` and, against any other point `z` of `g`, at the first variable
@@ -72,6 +73,22 @@ theorem C10_constrain_terminates {V fuel : Nat} {s : St} {f g : Ref} {φf φg : 
 example : ∃ s' r, constrain 5 s4 Ref.one Ref.one = .ok (s', r) ∧ Good s4 ∧ Valid s4.nodes Ref.one (fun _ => true) :=
   ⟨s4, Ref.one, by unfold constrain; simp [isZero, isOne, Ref.one, Ref.zero], s4_good, Valid.one⟩
 
+/-- the pointwise oracle of the correspondence check is the definition: walking the stored diagram of
+`g` along a point `x` — at each node take the side `x` prefers unless that child is the constant false
+(then take the other side and flip that variable) — arrives at THE closest point `y` of `g`, and the
+result of `constrain(f, g)` at `x` is `f` at `y` -/
+theorem C10_pointwise_by_walk {fuel k : Nat} {s s' : St} {f g r : Ref} {φf φg : Fn} {x y : Env}
+    (hg : Good s) (vf : Valid s.nodes f φf) (vg : Valid s.nodes g φg)
+    (h : constrain fuel s f g = .ok (s', r)) (hw : closestWalk s'.nodes k g x = some y) :
+    ∃ hfn, Valid s'.nodes r hfn ∧ hfn x = φf y :=
+  constrain_walk hg vf vg h hw
+
+/-- the walk always arrives (enough fuel) when `g` is satisfiable, and what it returns is the closest point -/
+theorem C10_walk_finds_closest {nd : Nodes} {g : Ref} {φg : Fn} (hI : NInv nd) (vg : Valid nd g φg)
+    (hne : φg ≠ fun _ => false) (x : Env) :
+    ∃ fuel0 y, Closest φg x y ∧ ∀ fuel, fuel0 ≤ fuel → closestWalk nd fuel g x = some y :=
+  closestWalk_total hI vg hne x
+
 end P
 #print axioms P.C10_constrain
 #print axioms P.C10_closest_exists_unique
@@ -82,3 +99,5 @@ end P
 #print axioms P.C10_self
 #print axioms P.C10_true
 #print axioms P.C10_constrain_terminates
+#print axioms P.C10_pointwise_by_walk
+#print axioms P.C10_walk_finds_closest
